@@ -309,6 +309,8 @@ def assign_target(self, target, v, st):
 def concretise(self, v, t, st):
     """Turn literal displays / views into a value of the expected type t."""
     if isinstance(t, Opaque) and t.nm == "Any":
+        if isinstance(v, Val) and v.t == t:
+            return v                     # an untracked value keeps its identity when it is only moved around
         return self.fresh_of_type(t, st, "any")
     if isinstance(v, tuple) and v and v[0] == "listlit":
         if isinstance(t, List):
